@@ -745,6 +745,11 @@ class PEval(Folder):
             self._store(st, fidx, t["dest"], v)
             self._enter_block(st, t["target"])
             return
+        if name and name not in PMODELS and name.startswith("<") and " as std::iter::Iterator>::" in name and not self.facts.fn(name):
+            # a std iterator's own override of a provided method behaves as the provided method on its remaining items
+            g = "std::iter::Iterator::" + name.rsplit("::", 1)[1]
+            if g in PMODELS:
+                name = g
         if name in PMODELS:
             try:
                 v = PMODELS[name](self, st, args, t)
@@ -905,7 +910,8 @@ def _as_iter(pe, st, v):
     return None
 
 
-@pmodel("<I as std::iter::IntoIterator>::into_iter", "std::array::iter::<impl std::iter::IntoIterator for [T; N]>::into_iter",
+@pmodel("<I as std::iter::IntoIterator>::into_iter", "<std::vec::Vec<T, A> as std::iter::IntoIterator>::into_iter",
+        "std::array::iter::<impl std::iter::IntoIterator for [T; N]>::into_iter",
         "core::slice::iter::<impl std::iter::IntoIterator for &'a [T]>::into_iter", "core::slice::<impl [T]>::iter")
 def _into_iter(pe, st, args, t):
     it = _as_iter(pe, st, args[0])
@@ -1061,6 +1067,9 @@ def _skip(pe, st, args, t):
         "<std::iter::Map<I, F> as std::iter::Iterator>::next",
         "<std::iter::Cycle<I> as std::iter::Iterator>::next",
         "<std::slice::IterMut<'a, T> as std::iter::Iterator>::next",
+        "<std::str::Chars<'a> as std::iter::Iterator>::next",
+        "<std::str::CharIndices<'a> as std::iter::Iterator>::next",
+        "<std::str::Bytes<'_> as std::iter::Iterator>::next",
         "<std::slice::ChunksExact<'a, T> as std::iter::Iterator>::next",
         "<std::iter::Take<I> as std::iter::Iterator>::next",
         "<std::slice::Iter<'a, T> as std::iter::Iterator>::next")
@@ -1124,6 +1133,46 @@ def _array_index(pe, st, args, t):
     raise _Abort("top", "unsupported index type")
 
 
+@pmodel("std::cmp::PartialEq::ne")
+def _partial_ne(pe, st, args, t):
+    a, b = _deref_all(pe, st, args[0]), _deref_all(pe, st, args[1])
+    gen = t.get("generics") or []
+    # the provided method: !self.eq(other); eq is the crate's (derived) impl when there is one
+    if gen:
+        eqp = "<%s as std::cmp::PartialEq>::eq" % gen[0]
+        if pe.facts.fn(eqp) is not None:
+            r = pe.invoke_closure(st, ("fn", eqp), [args[0], args[1]])
+            if r != TOP and r[0] == "bool":
+                return mk_bool(not r[1])
+            raise _Abort("top", "PartialEq::eq did not fold")
+    if a != TOP and b != TOP and a[0] == b[0] and a[0] in ("int", "bool", "char", "enum"):
+        return mk_bool(a != b)
+    raise _Abort("top", "ne() on values the evaluator cannot compare")
+
+
+@pmodel("core::slice::<impl [T]>::split_at", "core::slice::<impl [T]>::split_at_mut")
+def _split_at(pe, st, args, t):
+    base, k = args
+    tgt = _deref(pe, st, base)
+    if base == TOP or base[0] != "ref" or tgt == TOP or k == TOP or k[0] != "int":
+        raise _Abort("top", "split_at on an unknown slice")
+    if tgt[0] == "array":
+        n = len(tgt[1])
+    elif tgt[0] == "hview":
+        n = tgt[3] - tgt[2]
+    elif tgt[0] == "harr":
+        n = pe.heap.length(tgt)
+    else:
+        raise _Abort("top", "split_at on a non-array")
+    if not 0 <= k[2] <= n:
+        raise _Abort("diverge", "split_at %d out of range for length %d" % (k[2], n))
+    if base[1][0] == "place":
+        mk = lambda lo, hi: ("ref", ("place", base[1][1], base[1][2], tuple(base[1][3]) + ({"sub": (lo, hi)},)))
+    else:
+        mk = lambda lo, hi: ("ref", ("const", pe._project(st, 0, tgt, [{"sub": (lo, hi)}])))
+    return ("tuple", (mk(0, k[2]), mk(k[2], n)))
+
+
 @pmodel("core::slice::<impl [T]>::chunks_exact")
 def _chunks_exact(pe, st, args, t):
     v = _deref(pe, st, args[0])
@@ -1182,6 +1231,34 @@ def _fold(pe, st, args, t):
     for x in it[1][it[2]:]:
         acc = pe.invoke_closure(st, args[2], [acc, x])
     return acc
+
+
+@pmodel("std::iter::Iterator::collect")
+def _collect(pe, st, args, t):
+    it = _as_iter(pe, st, args[0])
+    dty = t.get("dest_ty") or ""
+    if it is None or (len(it) > 3 and it[3] == ("cycle",)):
+        raise _Abort("top", "collect() of an unknown iterator")
+    vals = tuple(it[1][it[2]:])
+    if dty.startswith("std::vec::Vec<"):
+        if len(vals) <= 16 and not any(v != TOP and v[0] == "int" for v in vals):
+            return ("array", vals)
+        h = pe.heap.new(len(vals), TOP)
+        for i, v in enumerate(vals):
+            pe.heap.put(h, i, v)
+        return h
+    if dty == "std::string::String":
+        out = []
+        for x in vals:
+            toks = _str_tokens(pe, st, x)
+            if toks is None:
+                if x != TOP and x[0] == "int" and x[1] == "char":
+                    toks = (x[2],)
+                else:
+                    raise _Abort("top", "collect::<String>() of unknown pieces")
+            out += list(toks)
+        return ("string", tuple(out))
+    raise _Abort("top", "collect() into %s is not modelled" % dty)
 
 
 @pmodel("core::slice::<impl [T]>::last", "core::slice::<impl [T]>::first")
@@ -1568,6 +1645,11 @@ def _opt_from_residual(pe, st, args, t):
 def merge_sel(cond, x, y):
     if x != TOP and y != TOP and x[0] == "array" and y[0] == "array" and len(x[1]) == len(y[1]):
         return ("array", tuple(a if a == b else merge_sel(cond, a, b) for a, b in zip(x[1], y[1])))
+    if x != TOP and y != TOP and x[0] == "tuple" and y[0] == "tuple" and len(x[1]) == len(y[1]):
+        return ("tuple", tuple(a if a == b else merge_sel(cond, a, b) for a, b in zip(x[1], y[1])))
+    if x != TOP and y != TOP and x[0] == "adt" and y[0] == "adt" and x[:4] == y[:4] and len(x[4]) == len(y[4]):
+        # same type and variant: merge field by field (a record of strings stays a record)
+        return x[:4] + (tuple(a if a == b else merge_sel(cond, a, b) for a, b in zip(x[4], y[4])),)
     if x != TOP and y != TOP and x[0] == "string" and y[0] == "string":
         a, b = x[1], y[1]
         n = 0
@@ -1578,7 +1660,11 @@ def merge_sel(cond, x, y):
 
 
 def _str_tokens(pe, st, v):
-    v = _deref(pe, st, v)
+    for _ in range(4):
+        if v != TOP and v[0] == "ref":
+            v = pe._load_ptr(st, v[1])
+        else:
+            break
     if v == TOP:
         return None
     if v[0] == "string":
@@ -1629,6 +1715,68 @@ def _string_pop(pe, st, args, t):
         raise _Abort("top", "String::pop of a symbolic character")
     pe.store_ptr(st, r[1], ("string", cur[1][:-1]))
     return some(("char", last))
+
+
+@pmodel("core::str::<impl str>::chars")
+def _str_chars(pe, st, args, t):
+    v = _deref_all(pe, st, args[0])
+    if v != TOP and v[0] == "str":
+        return ("iter", tuple(("char", ord(c)) for c in v[1]), 0)
+    if v != TOP and v[0] == "string" and all(isinstance(x, int) for x in v[1]):
+        return ("iter", tuple(("char", x) for x in v[1]), 0)
+    raise _Abort("top", "chars() of an unknown string")
+
+
+@pmodel("core::str::<impl str>::char_indices")
+def _str_char_indices(pe, st, args, t):
+    v = _deref_all(pe, st, args[0])
+    if v != TOP and v[0] == "str":
+        out, off = [], 0
+        for c in v[1]:
+            out.append(("tuple", (mk_int("usize", off), ("char", ord(c)))))
+            off += len(c.encode())
+        return ("iter", tuple(out), 0)
+    raise _Abort("top", "char_indices() of an unknown string")
+
+
+@pmodel("core::str::<impl str>::as_bytes", "core::str::<impl str>::bytes")
+def _str_as_bytes(pe, st, args, t):
+    v = _deref_all(pe, st, args[0])
+    if v != TOP and v[0] == "str":
+        arr = ("array", tuple(mk_int("u8", b) for b in v[1].encode()))
+        if (t.get("callee") or "").endswith("::bytes"):
+            return ("iter", arr[1], 0)
+        return ("ref", ("const", arr))
+    raise _Abort("top", "as_bytes() of an unknown string")
+
+
+@pmodel("core::str::traits::<impl std::ops::Index<I> for str>::index", "core::str::<impl str>::get_unchecked")
+def _str_index(pe, st, args, t):
+    v = _deref_all(pe, st, args[0])
+    r = args[1]
+    if v == TOP or v[0] != "str" or r == TOP or r[0] != "adt":
+        raise _Abort("top", "slicing an unknown string")
+    b = v[1].encode()
+    nm = r[1].split("::")[-1]
+    vals = [x[2] if (x != TOP and x[0] == "int") else None for x in r[4]]
+    if nm == "Range":
+        lo, hi = vals
+    elif nm == "RangeFrom":
+        lo, hi = vals[0], len(b)
+    elif nm == "RangeTo":
+        lo, hi = 0, vals[0]
+    elif nm == "RangeFull":
+        lo, hi = 0, len(b)
+    else:
+        raise _Abort("top", "unsupported string range")
+    if lo is None or hi is None:
+        raise _Abort("top", "string range with unknown bounds")
+    if not (0 <= lo <= hi <= len(b)):
+        raise _Abort("diverge", "string slice %d..%d out of range" % (lo, hi))
+    try:
+        return ("ref", ("const", ("str", b[lo:hi].decode())))
+    except UnicodeDecodeError:
+        raise _Abort("diverge", "string slice not on a char boundary")
 
 
 @pmodel("std::string::String::len", "core::str::<impl str>::len")
